@@ -382,7 +382,15 @@ def install(interp):
         ns[name] = Native("np." + name, f, type_tag=tag)
 
     reg("array", lambda ctx, v, dtype=None, copy=True: np_array(ctx, v, dtype))
-    reg("asarray", lambda ctx, v, dtype=None: np_array(ctx, v, dtype))
+    def asarray(ctx, v, dtype=None):
+        # numpy: no copy when the input already is an ndarray of the requested dtype - the result ALIASES the argument
+        dt = dtype_arg(dtype)
+        if isinstance(v, Arr) and v.is_nd and (dt is None or dt == v.dtype):
+            return v
+        return np_array(ctx, v, dtype)
+
+    reg("asarray", asarray)
+    reg("asanyarray", asarray)
     reg("zeros", lambda ctx, n, dtype=None: full(ctx, n, Fraction(0) if dtype_arg(dtype) in (None, "float") else 0, dtype or "float"))
     reg("ones", lambda ctx, n, dtype=None: full(ctx, n, Fraction(1) if dtype_arg(dtype) in (None, "float") else 1, dtype or "float"))
     reg("empty", lambda ctx, n, dtype=None: full(ctx, n, Fraction(0), dtype or "float"))
